@@ -31,7 +31,11 @@ async fn main() {
         let mode = match r.below(5) { 0 | 1 => "new", 2 | 3 => "add", _ => "globs" };
         let mut files = vec![]; let mut enc_files = vec![]; let mut used = std::collections::HashSet::new();
         for fi in 0..nf {
-            let (ai, ai_s): (Option<PathBuf>, String) = if r.below(6) == 0 { (None, "-".into()) } else { let d = r.pick(&dirs); let p = if r.below(10) == 0 { tmp.join(r.pick(&["elsewhere", "elsewhere/a", "o2"])) } else if d.is_empty() { origin.clone() } else { origin.join(d) }; (Some(p.clone()), p.display().to_string()) };
+            let (ai, ai_s): (Option<PathBuf>, String) = if r.below(6) == 0 { (None, "-".into()) } else { let d = r.pick(&dirs); let p = if r.below(10) == 0 { tmp.join(r.pick(&["elsewhere", "elsewhere/a", "o2"])) }
+                // an ignore file that applies in a STRICT ANCESTOR of the origin (the project sits inside a larger tree with its own ignore files):
+                // "nearest directory first, then farther ones" does not stop at the origin
+                else if r.below(9) == 0 { if r.below(3) == 0 { tmp.parent().unwrap().to_path_buf() } else { tmp.clone() } }
+                else if d.is_empty() { origin.clone() } else { origin.join(d) }; (Some(p.clone()), p.display().to_string()) };
             // files of one directory are applied in listed order (F13 repaired): same-directory files are wanted
             let _ = used.insert(ai_s.clone());
             let k = r.below(4) as usize + 1;
